@@ -1,1 +1,95 @@
-//! Harness contracts for C19.
+//! Harness contracts for C19 (fee forwarding).
+//!
+//! * `Target` — collaborator on the far side of `collect_fee_and_invoke`: every entry point
+//!   appends `(fn, args)` to an append-only log BEFORE it may fail, so that a failed forward that
+//!   leaves a trace is observable.  `boom` always fails; the other entry points fail when the
+//!   scripted flag is set; `guarded` additionally requires the authorization of `who`.
+//! * `Probe` — read-only bulk observer: one top-level invocation that calls the public
+//!   `balance` / `allowance` entry points of arbitrary tokens (library token or SAC).
+
+pub mod target {
+    use soroban_sdk::{contract, contractimpl, contracttype, symbol_short, Address, Env, IntoVal, Symbol, Val, Vec};
+
+    #[contracttype]
+    #[derive(Clone)]
+    pub struct CallRec {
+        pub func: Symbol,
+        pub args: Vec<Val>,
+    }
+
+    const LOG: Symbol = symbol_short!("LOG");
+    const FAIL: Symbol = symbol_short!("FAIL");
+
+    #[contract]
+    pub struct Target;
+
+    fn record(e: &Env, f: &str, args: Vec<Val>) -> u32 {
+        let mut log: Vec<CallRec> = e.storage().instance().get(&LOG).unwrap_or(Vec::new(e));
+        log.push_back(CallRec { func: Symbol::new(e, f), args });
+        e.storage().instance().set(&LOG, &log);
+        log.len()
+    }
+    fn maybe_fail(e: &Env) {
+        let fail: bool = e.storage().instance().get(&FAIL).unwrap_or(false);
+        if fail {
+            panic!("scripted failure");
+        }
+    }
+
+    #[contractimpl]
+    impl Target {
+        /// script: make every recording entry point fail after it has recorded
+        pub fn script(e: &Env, fail: bool) {
+            e.storage().instance().set(&FAIL, &fail);
+        }
+        pub fn ping(e: &Env, x: i128, y: u32) -> u32 {
+            let n = record(e, "ping", (x, y).into_val(e));
+            maybe_fail(e);
+            n
+        }
+        pub fn pong(e: &Env, x: i128, y: u32) -> u32 {
+            let n = record(e, "pong", (x, y).into_val(e));
+            maybe_fail(e);
+            n
+        }
+        pub fn guarded(e: &Env, who: Address, x: i128) -> u32 {
+            who.require_auth();
+            let n = record(e, "guarded", (who, x).into_val(e));
+            maybe_fail(e);
+            n
+        }
+        pub fn boom(e: &Env, x: i128, y: u32) -> u32 {
+            record(e, "boom", (x, y).into_val(e));
+            panic!("boom always fails");
+        }
+        pub fn log(e: &Env) -> Vec<CallRec> {
+            e.storage().instance().get(&LOG).unwrap_or(Vec::new(e))
+        }
+    }
+}
+
+pub mod probe {
+    use soroban_sdk::{contract, contractimpl, token::TokenClient, Address, Env, Vec};
+
+    #[contract]
+    pub struct Probe;
+
+    #[contractimpl]
+    impl Probe {
+        /// balances[token][holder] (row-major) and allowances[token][pair] (row-major)
+        pub fn dump(e: &Env, tokens: Vec<Address>, holders: Vec<Address>, pairs: Vec<(Address, Address)>) -> (Vec<i128>, Vec<i128>) {
+            let mut bal = Vec::new(e);
+            let mut alw = Vec::new(e);
+            for t in tokens.iter() {
+                let c = TokenClient::new(e, &t);
+                for h in holders.iter() {
+                    bal.push_back(c.balance(&h));
+                }
+                for (o, s) in pairs.iter() {
+                    alw.push_back(c.allowance(&o, &s));
+                }
+            }
+            (bal, alw)
+        }
+    }
+}
